@@ -114,8 +114,8 @@ def job_curve(env, cfg, pred=None):
 def select(env, cfg, prog, cid):
     ctx = discover(env, cfg)
     r = env.runner(cfg)
-    key = (id(r), r.starts)
-    if ctx["cur"] != (key, cid) or r.proc is None or r.proc.poll() is not None or r.ncases + 1 >= r.recycle:
+    key = r.epoch()
+    if ctx["cur"] != (key, cid):
         prog.call("ep_param_set", cid)
         ctx["cur"] = (key, cid)
         _reset_pcctx(cfg)
@@ -145,7 +145,7 @@ def run(env, cfg, cid, prog_builder, poison, seed=b"", prev=None):
         p.call("ep_param_set", prev)
         p.call("ep_param_set", cid)
         r = env.runner(cfg)
-        discover(env, cfg)["cur"] = ((id(r), r.starts), cid)
+        discover(env, cfg)["cur"] = (r.epoch(), cid)
         _reset_pcctx(cfg)
         skip = 2
     else:
